@@ -15,12 +15,19 @@ type checkFn struct {
 
 var registry = map[string]checkFn{}
 
+// workers are sub-process entry points: check <ID> worker <args...>
+var workers = map[string]func(args []string){}
+
 func main() {
 	if len(os.Args) < 3 {
 		fmt.Fprintln(os.Stderr, "usage: check <ID> <quick|thorough|replay> [file]")
 		os.Exit(2)
 	}
 	id, tier := os.Args[1], os.Args[2]
+	if w, ok := workers[id]; ok && tier == "worker" {
+		w(os.Args[3:])
+		return
+	}
 	c, ok := registry[id]
 	if !ok {
 		ev.ToolError("unknown check %q", id)
